@@ -122,7 +122,8 @@ type c08span map[string]any
 
 type c08trace struct {
 	Spans []c08span
-	Root  int // -1: no root span
+	Root  int  // -1: no root span
+	Big   bool // field values are large neighbouring integers (64-bit ids, ns timestamps)
 }
 
 type c08cond struct {
@@ -889,6 +890,12 @@ func c08genSpanValue(rng *verifkit.Rand) any {
 	return c08spanValues[rng.Intn(len(c08spanValues))]
 }
 
+// integers beyond 2^53 that float64 cannot tell from their neighbours
+var c08bigInts = []int64{
+	1<<53 + 1, 1<<53 + 2, 1<<53 + 3, 1<<62 - 1, 1 << 62, 1<<62 + 1, math.MaxInt64 - 2, math.MaxInt64 - 1, math.MaxInt64,
+	-(1 << 53) - 1, -(1 << 53) - 2, -(1 << 53) - 3, -(1 << 62) + 1, -(1 << 62), -(1 << 62) - 1, math.MinInt64 + 2, math.MinInt64 + 1, math.MinInt64,
+}
+
 func c08genTrace(rng *verifkit.Rand) c08trace {
 	n := rng.Range(1, 6)
 	if rng.Chance(0.02) {
@@ -905,10 +912,25 @@ func c08genTrace(rng *verifkit.Rand) c08trace {
 			active[f] = true
 		}
 	}
+	tr.Big = rng.Chance(0.07)
+	// in a big-integer trace each field holds values from one neighbourhood
+	hood := map[string]int{}
+	for _, f := range c08fields {
+		hood[f] = 3 * rng.Intn(len(c08bigInts)/3)
+	}
 	for i := range tr.Spans {
 		tr.Spans[i] = c08span{"other": int64(i)}
 		for _, f := range c08fields {
 			if active[f] && rng.Chance(0.55) {
+				if tr.Big {
+					v := c08bigInts[hood[f]+rng.Intn(3)]
+					if strconv.IntSize == 64 && rng.Chance(0.15) {
+						tr.Spans[i][f] = int(v) // not a wire type; only typed conversions are asserted on it
+					} else {
+						tr.Spans[i][f] = v
+					}
+					continue
+				}
 				tr.Spans[i][f] = c08genSpanValue(rng)
 			}
 		}
@@ -932,8 +954,22 @@ func c08valueFromTrace(rng *verifkit.Rand, tr c08trace, fields []string) (any, b
 		return nil, false
 	}
 	v := cands[rng.Intn(len(cands))]
-	if n, ok := v.(int64); ok && rng.Chance(0.7) && n < 1<<31 && n > -(1<<31) {
-		return int(n), true
+	if n, ok := v.(int); ok {
+		v = int64(n)
+	}
+	if n, ok := v.(int64); ok {
+		big := n > 1<<53 || n < -(1<<53)
+		if big && rng.Chance(0.5) { // the neighbour float64 cannot tell apart
+			if d := int64(rng.Range(1, 2)); rng.Bool() && n <= math.MaxInt64-d {
+				n += d
+			} else if n >= math.MinInt64+d {
+				n -= d
+			}
+		}
+		if (big && strconv.IntSize == 64 && rng.Chance(0.85)) || (rng.Chance(0.7) && n < 1<<31 && n > -(1<<31)) {
+			return int(n), true // YAML-loaded rules carry Go ints
+		}
+		return n, true
 	}
 	return v, true
 }
@@ -976,6 +1012,10 @@ func c08genCond(rng *verifkit.Rand, tr c08trace, scope string) c08cond {
 		c.Op = "exists"
 	}
 	c.Datatype = c08datatypes[rng.Intn(len(c08datatypes))]
+	if tr.Big && rng.Chance(0.7) {
+		c.Op = verifkit.Pick(rng, "=", "!=", "<", "<=", ">", ">=", "in", "not-in")
+		c.Datatype = verifkit.Pick(rng, "", "", "int", "string")
+	}
 	if (c.Op == "in" || c.Op == "not-in") && c.Datatype == "bool" {
 		c.Datatype = "" // rejected by Init; not documented what happens then
 	}
@@ -1057,7 +1097,7 @@ func c08genCond(rng *verifkit.Rand, tr c08trace, scope string) c08cond {
 			c.Value = verifkit.Pick[any](rng, len(tr.Spans), len(tr.Spans), len(tr.Spans)+1, len(tr.Spans)-1, 1, 3, int64(len(tr.Spans)), float64(len(tr.Spans)))
 			break
 		}
-		if v, ok := c08valueFromTrace(rng, tr, c.Fields); ok && rng.Chance(0.5) {
+		if v, ok := c08valueFromTrace(rng, tr, c.Fields); ok && (rng.Chance(0.5) || tr.Big) {
 			c.Value = v
 			break
 		}
@@ -1277,6 +1317,12 @@ func TestVerif_C08(t *testing.T) {
 		}
 
 		// evidence bookkeeping
+		if tr.Big {
+			run.Count("cases_with_large_neighbouring_integers", 1)
+			if len(allowed) == 1 {
+				run.Count("cases_with_large_neighbouring_integers_definite", 1)
+			}
+		}
 		if c08definite(verdicts, allowed) {
 			d := c08decider(verdicts)
 			outcome := "none"
